@@ -4,45 +4,74 @@ From Coq Require Import List Bool Arith Lia.
 From V.C05 Require Import ModelOrderEdges ModelRun ProofsLists ProofsTable ProofsOrder.
 Import ListNotations.
 
-Lemma wf_sound : forall ns, wf ns = true -> WF ns.
-Proof.
-  intros ns H. unfold wf in H. rewrite forallb_forall in H.
-  assert (N : forall i x, nth_error ns i = Some x ->
+Lemma wf_nodes : forall ns, wf ns = true -> forall i x, nth_error ns i = Some x ->
      (Nat.eqb i 0 || Nat.ltb (n_parent x) i) = true /\
      (n_eff x && kind_eqb (n_kind x) KInput) = false /\
-     (match kind_of ns (n_parent x) with Some KInput => true | _ => false end) = false).
-  { intros i x NX. assert (In i (seq 0 (length ns))) by (apply in_seq; apply nth_in_range in NX; lia).
-    apply H in H0. unfold wf_node in H0. rewrite NX in H0.
-    apply andb_prop in H0. destruct H0 as [H0 C]. apply andb_prop in H0. destruct H0 as [A B].
-    apply negb_true_iff in B. apply negb_true_iff in C. auto. }
+     is_container ns (n_parent x) = true.
+Proof.
+  intros ns H i x NX. unfold wf in H. rewrite forallb_forall in H.
+  assert (In i (seq 0 (length ns))) by (apply in_seq; apply nth_in_range in NX; lia).
+  apply H in H0. unfold wf_node in H0. rewrite NX in H0.
+  apply andb_prop in H0. destruct H0 as [H0 C]. apply andb_prop in H0. destruct H0 as [A B].
+  apply negb_true_iff in B. auto.
+Qed.
+
+Lemma wf_sound : forall ns, wf ns = true -> WF ns.
+Proof.
+  intros ns H. pose proof (wf_nodes ns H) as N.
   split; [|split].
   - intros i x NX I0. destruct (N i x NX) as (A & _ & _). apply orb_prop in A. destruct A as [A|A].
     + apply Nat.eqb_eq in A. contradiction.
     + apply Nat.ltb_lt in A. exact A.
   - intros i x NX EF K. destruct (N i x NX) as (_ & B & _). rewrite EF, K in B. discriminate.
-  - intros i x NX K. destruct (N i x NX) as (_ & _ & C). rewrite K in C. discriminate.
+  - intros i x NX K. destruct (N i x NX) as (_ & _ & C). unfold is_container in C. rewrite K in C. discriminate.
 Qed.
 
-Lemma disciplined_sound : forall ns start, parents_lt ns -> disciplined ns start = true ->
+Lemma climb_keys_parent : forall ns f x p c, In (p, c) (climb f ns x) ->
+  exists j y, nth_error ns j = Some y /\ n_parent y = p.
+Proof.
+  induction f as [|f IH]; intros x p c H; simpl in H; [tauto|].
+  destruct (Nat.eqb x 0); [simpl in H; tauto|].
+  destruct (nth_error ns x) as [nd|] eqn:NX; [|simpl in H; tauto].
+  destruct H as [H|H]; [inversion H; subst; eauto|].
+  destruct (kind_of ns (n_parent nd)) as [k|]; [|simpl in H; tauto].
+  destruct k; try (simpl in H; tauto); eauto.
+Qed.
+
+Lemma events_container : forall ns start p, wf ns = true -> ctx_events ns start p <> [] -> is_container ns p = true.
+Proof.
+  intros ns start p H NE. destruct (wf_sound _ H) as (PL & _ & _).
+  destruct (ctx_events ns start p) as [|c r] eqn:E; [congruence|].
+  assert (Hc : In c (ctx_events ns start p)) by (rewrite E; left; auto).
+  unfold ctx_events, events_range, eff_leaves in Hc. apply in_flat_map in Hc. destruct Hc as [m [_ Hc]].
+  rewrite event_of_sel in Hc by auto. apply sel_in in Hc.
+  apply climb_keys_parent in Hc. destruct Hc as (j & y & NJ & <-).
+  apply (wf_nodes ns H j y NJ).
+Qed.
+
+Lemma disciplined_sound : forall ns start, wf ns = true -> disciplined ns start = true ->
   forall p, Disc (ctx_events ns start p).
 Proof.
-  intros ns start PL H p. unfold disciplined in H. rewrite forallb_forall in H.
-  destruct (Nat.lt_ge_cases p (length ns)) as [L|G].
-  - apply discb_sound, H, in_seq. lia.
-  - rewrite ctx_events_out by auto. apply Disc_nil.
+  intros ns start W H p. unfold disciplined in H. rewrite forallb_forall in H.
+  destruct (ctx_events ns start p) eqn:E; [apply Disc_nil|]. rewrite <- E.
+  assert (C : is_container ns p = true) by (apply (events_container ns start); auto; rewrite E; discriminate).
+  apply discb_sound, H. unfold containers. apply filter_In. split; auto. apply in_seq.
+  unfold is_container, kind_of in C. destruct (nth_error ns p) eqn:NX; [|discriminate]. apply nth_in_range in NX. lia.
 Qed.
 
-Lemma local_ok_sound : forall before after, parents_lt (nodes after) -> local_ok before after = true ->
+Lemma local_ok_sound : forall before after, wf (nodes after) = true -> local_ok before after = true ->
   (forall p, ctx_events (nodes after) (length (nodes before)) p <> [] -> region_edges before p = []) /\
   (forall a b, In (a, b) (edges before) -> b < length (nodes before)).
 Proof.
-  intros before after PL H. unfold local_ok in H. apply andb_prop in H. destruct H as [H1 H2].
+  intros before after W H. unfold local_ok in H. apply andb_prop in H. destruct H as [H1 H2].
   rewrite forallb_forall in H1, H2. split.
-  - intros p NE. destruct (Nat.lt_ge_cases p (length (nodes after))) as [L|G].
-    + assert (In p (seq 0 (length (nodes after)))) by (apply in_seq; lia).
-      apply H1 in H. destruct (ctx_events (nodes after) (length (nodes before)) p); [congruence|].
-      destruct (region_edges before p); [reflexivity|discriminate].
-    + exfalso. apply NE. apply ctx_events_out; auto.
+  - intros p NE.
+    assert (C : is_container (nodes after) p = true) by (eapply events_container; eauto).
+    assert (In p (containers (nodes after))).
+    { unfold containers. apply filter_In. split; auto. apply in_seq.
+      unfold is_container, kind_of in C. destruct (nth_error (nodes after) p) eqn:NX; [|discriminate]. apply nth_in_range in NX. lia. }
+    apply H1 in H. destruct (ctx_events (nodes after) (length (nodes before)) p); [congruence|].
+    destruct (region_edges before p); [reflexivity|discriminate].
   - intros a b Hab. apply H2 in Hab. simpl in Hab. apply Nat.ltb_lt in Hab. exact Hab.
 Qed.
 
